@@ -242,13 +242,15 @@ func scenarioStart(c *hlib.RunCtx) *hlib.Violation {
 			s.Advance(time.Duration(t.Draw(50)) * time.Minute)
 		}
 	}
-	switch t.Draw(3) {
+	switch t.Draw(4) {
 	case 0:
 		s.Strat = simrt.StratUniform
 	case 1:
 		s.Strat = simrt.StratBursty
 	case 2:
 		s.SetPCT(1+t.Draw(3), 200)
+	case 3:
+		s.SetDelay([]string{"fs:stat", "fs:remove", "fs:create-excl", "fs:readfile", "proc:start", "fs:mkdirall"}, 1+t.Rng.Intn(3))
 	}
 	c.Sample = map[string]any{"mode": mode, "token": []string{"absent", "fresh", "stale"}[tokenState], "token_age": tokenAge.String(), "starters": desc, "family": family}
 	s.MaxSteps = 400000
